@@ -74,6 +74,10 @@ struct P {
     batches: Vec<Vec<Op>>,
     link: LinkCfg,
     bus_delays: bool,
+    /// fault kind `cancel_task`: (batch, operation, await points survived) - that operation's task is dropped
+    /// in the middle of creating / dropping its handle
+    #[serde(default)]
+    cancel: Option<(u8, u8, u32)>,
 }
 
 enum Handle {
@@ -124,7 +128,7 @@ impl Scenario for C37Scn {
         "C37"
     }
     fn rule(&self) -> &'static str {
-        "a bus connection against the fake bus (which records AddMatch / RemoveMatch) runs 2..8 batches of 1..2 concurrent operations, quiescence between batches: create a MessageStream for one of 6 overlapping rules (incl. an untyped rule and a method-call rule that must never reach the bus), create a proxy (well-known or unique destination), create a proxy signal stream (one member or all signals; for well-known names this also subscribes to NameOwnerChanged twice and looks the owner up), drop any of them (Drop or async_drop); oracle after every batch: the rules added and not removed == the distinct signal rules with a live subscriber, each exactly once, no AddMatch of a registered rule, no RemoveMatch of an unregistered one; non-trivial = two live subscribers shared one rule at some point, or two operations on the same rule ran concurrently"
+        "a bus connection against the fake bus (which records AddMatch / RemoveMatch) runs 2..8 batches of 1..2 concurrent operations, quiescence between batches: create a MessageStream for one of 6 overlapping rules (incl. an untyped rule and a method-call rule that must never reach the bus), create a proxy (well-known or unique destination), create a proxy signal stream (one member or all signals; for well-known names this also subscribes to NameOwnerChanged twice and looks the owner up), drop any of them (Drop or async_drop); in a third of the runs one bus-talking operation is cancelled at one of its first await points (fault kind cancel_task; its handle then exists or not, and the bus must agree with whatever exists); oracle after every batch: the rules added and not removed == the distinct signal rules with a live subscriber, each exactly once, no AddMatch of a registered rule, no RemoveMatch of an unregistered one; non-trivial = two live subscribers shared one rule at some point, or two operations on the same rule ran concurrently"
     }
     fn runs(&self, tier: Tier) -> u64 {
         match tier {
@@ -187,20 +191,46 @@ impl Scenario for C37Scn {
             batches.push(batch);
         }
         let sched = SchedCfg::generate(rng, &["Remove match", "op", "socket reader"]);
-        (sched, j(&P { batches, link: gen_read_cfg(rng), bus_delays: rng.chance(2, 3) }))
+        // cancel an operation that talks to the bus, early
+        let talkers: Vec<(u8, u8)> = batches
+            .iter()
+            .enumerate()
+            .flat_map(|(bi, b)| b.iter().enumerate().filter(|(_, o)| matches!(o, Op::Stream { .. } | Op::Signals { .. } | Op::Drop { asynchronous: true, .. })).map(move |(oi, _)| (bi as u8, oi as u8)))
+            .collect();
+        let cancel = if !talkers.is_empty() && rng.chance(1, 3) {
+            let (bi, oi) = *rng.pick(&talkers);
+            Some((bi, oi, rng.below(4) as u32))
+        } else {
+            None
+        };
+        (sched, j(&P { batches, link: gen_read_cfg(rng), bus_delays: rng.chance(2, 3), cancel }))
     }
 
     fn shrink(&self, body: &Value) -> Vec<Value> {
         let p: P = unj(body);
         let mut out = vec![];
-        if p.batches.len() > 1 {
+        if p.batches.len() > 1 && p.cancel.map_or(true, |c| (c.0 as usize) < p.batches.len() - 1) {
             let mut q = p.clone();
             q.batches.pop();
             out.push(j(&q));
         }
+        if let Some((b, o, n)) = p.cancel {
+            let mut q = p.clone();
+            q.cancel = None;
+            out.push(j(&q));
+            if n > 0 {
+                let mut q = p.clone();
+                q.cancel = Some((b, o, n - 1));
+                out.push(j(&q));
+            }
+        }
         // drop one op (and everything that refers to the handle it created)
         for (bi, b) in p.batches.iter().enumerate() {
             for (oi, op) in b.iter().enumerate() {
+                // with a cancellation only operations of later batches are dropped (indices stay valid)
+                if p.cancel.map_or(false, |c| bi <= c.0 as usize) {
+                    continue;
+                }
                 let mut q = p.clone();
                 q.batches[bi].remove(oi);
                 if let Op::Stream { id, .. } | Op::Proxy { id, .. } | Op::Signals { id, .. } = op {
@@ -246,10 +276,19 @@ impl Scenario for C37Scn {
         let mut model: BTreeMap<u8, Model> = BTreeMap::new();
         let mut verdict = None;
         let mut nontrivial = false;
+        let mut cancelled_seen = false;
+        let mut maybe_subscribed: BTreeMap<u8, u8> = BTreeMap::new();
         for (bi, batch) in p.batches.iter().enumerate() {
             let errors = shared(Vec::<String>::new());
             let mut tasks = vec![];
-            for op in batch {
+            for (oi, op) in batch.iter().enumerate() {
+                let cancel_at = match p.cancel {
+                    Some((b, o, n)) if b as usize == bi && o as usize == oi => Some(n),
+                    _ => None,
+                };
+                if cancel_at.is_some() {
+                    cancelled_seen = true;
+                }
                 let (conn, handles, errors) = (conn.clone(), handles.clone(), errors.clone());
                 let op = *op;
                 // proxies needed by this op are taken out of the table up front (cloned)
@@ -260,7 +299,7 @@ impl Scenario for C37Scn {
                     },
                     _ => None,
                 };
-                tasks.push(w.spawn("op", async move {
+                tasks.push(w.spawn("op", cancel_after(w, cancel_at, async move {
                     let r: zbus::Result<()> = async {
                         match op {
                             Op::Stream { id, rule } => {
@@ -301,7 +340,7 @@ impl Scenario for C37Scn {
                     if let Err(e) = r {
                         errors.lock().unwrap().push(format!("{op:?}: {e}"));
                     }
-                }));
+                })));
             }
             w.run();
             drop(tasks);
@@ -312,6 +351,19 @@ impl Scenario for C37Scn {
             // update the model
             let before = model.clone();
             for op in batch {
+                // a cancelled creation may or may not have produced its handle
+                if let Op::Stream { id, .. } | Op::Proxy { id, .. } | Op::Signals { id, .. } = op {
+                    if !handles.lock().unwrap().contains_key(id) {
+                        // a cancelled signal-stream creation may have left the proxy subscribed to its
+                        // destination's owner changes (that subscription belongs to the proxy)
+                        if let Op::Signals { proxy, .. } = op {
+                            if let Some(Model::Proxy { dest, subscribed: false }) = model.get(proxy).cloned() {
+                                maybe_subscribed.insert(*proxy, dest);
+                            }
+                        }
+                        continue;
+                    }
+                }
                 match *op {
                     Op::Stream { id, rule } => {
                         model.insert(id, Model::Stream(rule));
@@ -346,18 +398,25 @@ impl Scenario for C37Scn {
             let want = expected_rules(&model);
             let b = bus.lock().unwrap();
             if let Some(r) = b.dup_adds.first() {
-                verdict = Some(Verdict::fail("balance", "added-twice", format!("batch {bi}: AddMatch for a rule that was already registered: {r}")));
+                verdict = Some(Verdict::fail("balance", if cancelled_seen { "after-cancelled-operation-added-twice" } else { "added-twice" }, format!("batch {bi}: AddMatch for a rule that was already registered: {r}")));
                 break;
             }
             if let Some(r) = b.bad_removes.first() {
-                verdict = Some(Verdict::fail("balance", "removed-unregistered", format!("batch {bi}: RemoveMatch for a rule that is not registered: {r}")));
+                verdict = Some(Verdict::fail("balance", if cancelled_seen { "after-cancelled-operation-removed-unregistered" } else { "removed-unregistered" }, format!("batch {bi}: RemoveMatch for a rule that is not registered: {r}")));
                 break;
             }
             let live: BTreeSet<String> = b.live_rules.iter().cloned().collect();
-            if live != want || b.live_rules.len() != live.len() {
+            let mut want_alt = want.clone();
+            for (px, dest) in &maybe_subscribed {
+                if model.contains_key(px) && is_well_known(*dest) {
+                    want_alt.insert(noc_rule(DESTS[*dest as usize]));
+                }
+            }
+            if (live != want && live != want_alt) || b.live_rules.len() != live.len() {
                 let missing: Vec<&String> = want.difference(&live).collect();
                 let extra: Vec<&String> = live.difference(&want).collect();
                 let disc = if !missing.is_empty() { "rule-missing-on-bus" } else { "rule-leaked-on-bus" };
+                let disc = if cancelled_seen { format!("after-cancelled-operation-{disc}") } else { disc.to_string() };
                 verdict = Some(Verdict::fail(
                     "balance",
                     disc,
